@@ -129,6 +129,10 @@ def run(tier, seed, replay=None):
             {"kind": "run", "src": 'println(1)\nnosuch()', "args": [], "mode": "file"},
             {"kind": "parse", "src": 'println(1)\nx = (', "args": [], "mode": "e"},
             {"kind": "unreadable", "src": "", "args": [], "mode": "file", "unreadable": "missing"},
+            {"kind": "unreadable", "src": "", "args": [], "mode": "file", "unreadable": "emptyname"},
+            {"kind": "unreadable", "src": "", "args": ["a", "b"], "mode": "file", "unreadable": "emptyname"},
+            {"kind": "unreadable", "src": "", "args": [], "mode": "file", "unreadable": "dir"},
+            {"kind": "unreadable", "src": "", "args": ["x"], "mode": "file", "unreadable": "missing"},
             {"kind": "empty", "src": "", "args": [], "mode": "e"},
             {"kind": "empty", "src": "", "args": [], "mode": "file"},
             {"kind": "empty", "src": "", "args": ["a.ank"], "mode": "e"},
@@ -151,6 +155,9 @@ def run(tier, seed, replay=None):
             if c["mode"] == "file":
                 if c.get("unreadable") == "missing":
                     fname = os.path.join(wd, "missing%d.ank" % i)
+                    libsrc = fname
+                elif c.get("unreadable") == "emptyname":     # what a shell passes for "$UNSET": a file argument that is the empty string
+                    fname = ""
                     libsrc = fname
                 elif c.get("unreadable") == "dir":
                     fname = os.path.join(wd, "adir.ank")
